@@ -64,7 +64,23 @@ const findingClipSimple = "clipby-skips-simple-point"
 // pole or the antimeridian.
 const findingCircleBox = "circle-object-box-misses-disc"
 
-var allFindings = []string{findingEmpty, findingCircleObj, findingCircleBox, findingCircle}
+// findingNaN: geojson's makeCircleObject computes the 64-gon with
+// geo.DestinationPoint, whose math.Asin argument rounds to 1.0000000000000002
+// when the disc's north/south extreme touches a pole: the circle object gets a
+// NaN latitude box. cmdSET stores it, Collection puts the NaN box into the
+// R-tree, node rectangles become NaN, and from then on deletes silently fail
+// (deleted ids keep being returned) and searches miss objects.
+const findingNaN = "circle-nan-box-corrupts-index"
+
+var allFindings = []string{findingNaN, findingEmpty, findingCircleObj, findingCircleBox, findingCircle}
+
+func nanBox(o geojson.Object) bool {
+	if o == nil || o.Empty() {
+		return false
+	}
+	r := o.Rect()
+	return math.IsNaN(r.Min.X) || math.IsNaN(r.Min.Y) || math.IsNaN(r.Max.X) || math.IsNaN(r.Max.Y)
+}
 
 func isCircleObj(o geojson.Object) bool {
 	_, ok := o.(*geojson.Circle)
@@ -330,6 +346,7 @@ type machine struct {
 	nMove int
 	inex  int // live objects whose float64 box is not its float32 box
 	nextN int
+	nan   bool // an object with a NaN box has been stored in this history
 }
 
 func newMachine(t ev.Failer, c *ev.Collector, be backend, level, poolMode string) *machine {
@@ -398,6 +415,9 @@ func (m *machine) apply(st step) {
 		m.live[st.ID] = obj
 		if inexact(obj) {
 			m.inex++
+		}
+		if nanBox(obj) {
+			m.nan = true
 		}
 		m.mix("set", st.ID, strings.Join(st.Obj.Args, " "))
 	case "del":
@@ -510,7 +530,7 @@ func (m *machine) query(st step) {
 
 	// shapes of the findings of this property; when a finding is listed as
 	// known its shape is taken out of the comparison (and counted)
-	shapes := map[string]map[string]bool{findingCircle: {}, findingEmpty: {}, findingCircleObj: {}, findingCircleBox: {}}
+	shapes := map[string]map[string]bool{findingCircle: {}, findingEmpty: {}, findingCircleObj: {}, findingCircleBox: {}, findingNaN: {}}
 	_, isCirc := base.(*geojson.Circle)
 	var areaRect geometry.Rect
 	if clipped != nil {
@@ -541,9 +561,36 @@ func (m *machine) query(st step) {
 		}
 	}
 	ignore := map[string]bool{}
+	// Float tolerance: the exact predicates of geojson accept, by rounding in a
+	// division (Segment.Raycast), an object whose box misses the area's box by
+	// less than 1e-9 degrees (seen: 2e-23). No index can offer that object;
+	// it is not counted as lost (circles are handled by the findings above).
+	if clipped != nil && !isCirc {
+		for id := range want {
+			o := m.live[id]
+			if o == nil || o.Empty() || isCircleObj(o) || nanBox(o) {
+				continue
+			}
+			if r := o.Rect(); !r.IntersectsRect(areaRect) && boxGap(r, areaRect) < 1e-9 {
+				c.Label("tolerated:predicate-true-boxes-disjoint")
+				ignore[id] = true
+				delete(want, id)
+			}
+		}
+	}
+	if m.nan {
+		// after a NaN box the whole index is suspect: every mismatch belongs to that finding
+		c.Label("shape:" + findingNaN)
+		for id := range want {
+			shapes[findingNaN][id] = true
+		}
+	}
 	for _, fid := range allFindings {
 		if len(shapes[fid]) == 0 {
 			continue
+		}
+		if fid == findingNaN {
+			continue // excluded at generation time when known, see drawObject
 		}
 		c.Label("shape:" + fid)
 		if ev.KnownActive(fid) {
@@ -596,6 +643,9 @@ func (m *machine) query(st step) {
 		}
 		if clipSimple {
 			key = findingClipSimple
+		}
+		if m.nan {
+			key = findingNaN
 		}
 		c.Fail(m.t, key, desc()+"; returned although the predicate is false (or the id is gone): "+clipStr(extra, 8), m.hist)
 	}
@@ -668,6 +718,17 @@ func nextafter32(f float32, up bool) float32 {
 
 const findingLineHang = "hang-linestring-within-linestring"
 
+// boxGap is the largest per-axis distance between two disjoint rectangles.
+func boxGap(a, b geometry.Rect) float64 {
+	g := 0.0
+	for _, d := range []float64{b.Min.X - a.Max.X, a.Min.X - b.Max.X, b.Min.Y - a.Max.Y, a.Min.Y - b.Max.Y} {
+		if d > g {
+			g = d
+		}
+	}
+	return g
+}
+
 // hasMultiSegLine reports whether o contains a LineString of more than one
 // segment anywhere inside.
 func hasMultiSegLine(o geojson.Object) bool {
@@ -704,13 +765,27 @@ func drawN(rt *rapid.T, s sizes) int {
 	}
 }
 
+// drawObject draws an object; while findingNaN is listed as known, circle
+// objects whose polygon box is NaN are replaced by their centre point.
+func (m *machine) drawObject(t *rapid.T, p pool) objSpec {
+	o := p.object(t)
+	if ev.KnownActive(findingNaN) {
+		if g, err := buildObject(o); err == nil && nanBox(g) {
+			m.c.Excluded(findingNaN)
+			ctr := g.Center()
+			return objSpec{[]string{"POINT", fs(ctr.Y), fs(ctr.X)}}
+		}
+	}
+	return o
+}
+
 func generate(rt *rapid.T, m *machine, server bool, s sizes) {
 	p := drawPool(rt)
 	m.hist.Pool = p.Mode
 	m.c.Label("pool:" + p.Mode)
 	n := drawN(rt, s)
 	for i := 0; i < n; i++ {
-		o := p.object(rt)
+		o := m.drawObject(rt, p)
 		m.apply(step{Op: "set", ID: m.newID(), Obj: &o})
 	}
 	pickLive := func(t *rapid.T) string {
@@ -737,12 +812,12 @@ func generate(rt *rapid.T, m *machine, server bool, s sizes) {
 	}
 	actions := map[string]func(*rapid.T){
 		"set-new": func(t *rapid.T) {
-			o := p.object(t)
+			o := m.drawObject(t, p)
 			m.apply(step{Op: "set", ID: m.newID(), Obj: &o})
 		},
 		"move": func(t *rapid.T) {
 			id := pickLive(t)
-			o := p.object(t)
+			o := m.drawObject(t, p)
 			m.apply(step{Op: "set", ID: id, Obj: &o})
 		},
 		"delete": func(t *rapid.T) {
@@ -792,14 +867,14 @@ func generate(rt *rapid.T, m *machine, server bool, s sizes) {
 			lo := rapid.IntRange(0, len(m.ids)-cnt).Draw(t, "lo")
 			victims := append([]string{}, m.ids[lo:lo+cnt]...)
 			for _, id := range victims {
-				o := p.object(t)
+				o := m.drawObject(t, p)
 				m.apply(step{Op: "set", ID: id, Obj: &o})
 			}
 		},
 		"bulk-insert": func(t *rapid.T) {
 			cnt := rapid.IntRange(1, imax(4, s.small[1]/2)).Draw(t, "cnt")
 			for i := 0; i < cnt; i++ {
-				o := p.object(t)
+				o := m.drawObject(t, p)
 				m.apply(step{Op: "set", ID: m.newID(), Obj: &o})
 			}
 		},
